@@ -199,6 +199,26 @@ def gen_stream_hostile(rng, n):
     return out
 
 
+def gen_conc(rng, n):
+    """writers of different tunnels in their own goroutines on one connection (Go-side predicate only)"""
+    out = []
+    for _ in range(n):
+        writers = ["conc-mine", "conc-other-1", "conc-other-2"]
+        ops = []
+        for w in range(3):
+            for _ in range(rng.choice([5, 20, 40])):
+                ops.append({"k": "w", "w": w, "data": rand_bytes(rng, rng.choice([1, 100, 5000, 40000, 70000])).hex()})
+        for _ in range(rng.choice([0, 10])):
+            tid = bytearray(pad16(b"conc-mine"))
+            tid[rng.randrange(16)] ^= 1 << rng.randrange(8)
+            ops.append({"k": "f", "tid": bytes(tid).hex(), "ty": rng.choice([1, 3, 9, 2]), "data": rand_bytes(rng, rng.choice([0, 300, 30000])).hex()})
+        rng.shuffle(ops)
+        ops.append({"k": rng.choice(["cw", "c"]), "w": 0})
+        out.append({"mode": "conc", "writers": [hx(w) for w in writers], "reader": hx("conc-mine"), "reader_cw": False,
+                    "ops": ops, "caps": [], "dcap": rng.choice([4096, 32768, 65536])})
+    return out
+
+
 def gen_tid(rng, n):
     out = [{"mode": "tid", "strs": [hx(""), hx("a"), hx("1234567890123456"), hx("12345678901234567x"), hx("my-tunnel-id")]}]
     for _ in range(n):
@@ -224,6 +244,8 @@ def case_values(c, o):
             fr = [[[hb(f["tid"]), f["ty"], hb(f["data"])] for f in c["frames"]]]
         obs = [[1, hb(x["tid"]), x["ty"], hb(x["data"]), x["consumed"]] if x["ok"] else [0, x["eof"], x["consumed"]] for x in o["obs"]]
         return [[0, fr, hb(o["wire"]), list(c["cuts"]), obs]]
+    if c["mode"] == "conc":
+        return []     # real goroutine interleaving: frame order is not reproducible, Go-side predicate only
     if c["mode"] == "stream":
         ops = []
         for op in c["ops"]:
@@ -337,6 +359,7 @@ def run(ctx, only_cases=None):
         cases += gen_stream_hostile(rng, 600 if thorough else 60)
         cases += gen_stream_big(rng, thorough)
         cases += gen_tid(rng, 400 if thorough else 40)
+        cases += gen_conc(rng, 60 if thorough else 8)
     outs = vlib.run_harness(binary, cases, timeout=1500)
     if only_cases is None:
         wires = [o["wire"] for c, o in zip(cases, outs) if c["mode"] in ("enc", "stream") and 0 < o["wire_len"] < 3000]
@@ -433,6 +456,10 @@ def run(ctx, only_cases=None):
             dist["stream_dribbled_over_tcp"] += bool(c.get("dribble"))
             dist["reader_terminations"][o.get("term")] = dist["reader_terminations"].get(o.get("term"), 0) + 1
             if len(o.get("reads") or []) >= 2 and (foreign or bigw):
+                nontrivial.add(h)
+        elif c["mode"] == "conc":
+            dist["concurrent_writer_runs"] = dist.get("concurrent_writer_runs", 0) + 1
+            if o.get("wire_len", 0) > MAXF:
                 nontrivial.add(h)
         else:
             dist["tid_strings"] += len(c["strs"])
